@@ -4,7 +4,7 @@ from __future__ import annotations
 import ast
 from typing import Any, Dict, List, Optional, Set, Tuple
 
-from sa import AnalysisError
+from sa import AnalysisError, fd
 from sa.cf import cfg_of
 from sa.pm import FuncInfo, call_name, norm, self_attr, walk_local_ordered
 from sa.report import Ob, rule
@@ -223,6 +223,33 @@ def goodbye(ctx: Any) -> List[Ob]:
         if 'SUSPEND' in kinds and 'SNAPSHOT' not in kinds[len(kinds) - kinds[::-1].index('SUSPEND'):]:
             bad_paths.append(' -> '.join(str(n.line) for n, _ in path if n.line))
     obs.append(ob(R, ua, 'generate_unregister_all_services() ... await ... return', 'on every path the registry is examined again after the last suspension (a service registered while the goodbyes were being sent is withdrawn too)', n_paths > 0 and not bad_paths, 'path through lines ' + bad_paths[0] if bad_paths else ''))
+    # decision table of the routine: a goodbye message is transmitted three times, then the registry is examined again; with
+    # nothing (left) registered it returns without transmitting
+    gen_calls = {norm(c) for c in ast.walk(ua.node) if isinstance(c, ast.Call) and call_name(c) == 'generate_unregister_all_services'}
+    want_n = prog.const('zeroconf._core', '_REGISTER_BROADCASTS')
+
+    def count_iter(node: Any, evl: Any) -> Any:
+        it = node.ast.iter
+        if isinstance(it, ast.Call) and norm(it.func) == 'range' and len(it.args) == 1 and isinstance(node.ast.target, ast.Name):
+            k = evl.ev(it.args[0])
+            cur = evl.locals.get(node.ast.target.id)
+            if isinstance(k, int):
+                return (0 if not isinstance(cur, int) else cur + 1) < k
+        return None
+
+    def eff_u(node: Any, evl: Any) -> List[Any]:
+        out = ['GEN' for c in fd.node_calls(node, evl) if call_name(c) == 'generate_unregister_all_services']
+        out += ['SEND' for c in fd.node_calls(node, evl) if call_name(c) == 'async_send']
+        return out
+
+    gen_nodes = [n for n in cfg_u.nodes if any(call_name(c) == 'generate_unregister_all_services' for c in n.calls())]
+    oc_none, und_n = fd.run_paths(prog, ua.module, cfg_u, {c: None for c in gen_calls}, eff_u, loop_bound=want_n + 2, for_iter=count_iter)
+    none_ok = bool(oc_none) and all('SEND' not in t for t in oc_none)
+    # one round with a message: from the snapshot to the next snapshot (or the exit)
+    oc_msg, und_m = fd.run_paths(prog, ua.module, cfg_u, {c: 'goodbye-message' for c in gen_calls}, eff_u, start=gen_nodes[0] if gen_nodes else None, stop=lambda n: n in gen_nodes, loop_bound=want_n + 2, for_iter=count_iter)
+    rounds = sorted({sum(1 for x in t if x == 'SEND') for t in oc_msg})
+    back = all(t and t[-1] != ('ret', None) and not any(isinstance(x, tuple) and x[0] == 'ret' for x in t) for t in oc_msg)
+    obs.append(ob(R, ua, 'out = self.generate_unregister_all_services(); if not out: return; for i in range(_REGISTER_BROADCASTS): ... self.async_send(out)', 'a goodbye message is transmitted three times and the registry examined again; with nothing registered the routine returns without transmitting', none_ok and rounds == [want_n] and back and not und_n and not und_m and bool(gen_nodes), f'nothing registered: {sorted(map(str, oc_none))[:2]}; transmissions per goodbye message: {rounds}; returns to the snapshot: {back}; undecided {und_n + und_m}'))
     from .c08 import closing_goodbye_obligation
 
     obs.append(closing_goodbye_obligation(ctx, R))
